@@ -60,16 +60,15 @@ theorem const_argument_reads_expected : Gen.constArgumentIndex =
      ("builtinStringLastIndexOf", "ArgumentList[1]"), ("builtinStringLastIndexOf", "ArgumentList[1]")] := by decide
 
 /-- P3: explicit panics with a payload Run does not convert are confined to the known
-    internal-invariant sites ("unknown node type", "here be dragons", stash bookkeeping) and to the
-    bridged Go containers (type_go_*.go, a C16 known finding); a new one shows up here -/
+    internal-invariant sites ("unknown node type", "here be dragons", stash bookkeeping); the bridged
+    Go containers (type_go_*.go) left this list with fix bb377a4; a new one shows up here -/
 theorem unconverted_panics_expected : Gen.unconvertedPanics =
     [("New", "error"), ("New", "error"), ("Value.bool", "string"), ("Value.float64", "error"), ("Value.string", "error"),
      ("Value.toReflectValue", "error"), ("arrayDefineOwnProperty", "string"), ("catchPanic", "interface{}"),
      ("cloner.property", "error"), ("compiler.parse", "string"), ("compiler.parseExpression", "error"),
      ("compiler.parseExpression", "string"), ("compiler.parseStatement", "string"), ("dclStash.createBinding", "error"),
      ("dclStash.getBinding", "error"), ("dclStash.setBinding", "error"), ("getStashProperties", "string"),
-     ("goArrayObject.setValue", "error"), ("goMapObject.toKey", "error"), ("goMapObject.toValue", "error"),
-     ("goSliceObject.setLength", "error"), ("goSliceObject.setValue", "error"), ("objectStash.createBinding", "string"),
+     ("objectStash.createBinding", "string"),
      ("runtime.calculateBinaryExpression", "string"), ("runtime.calculateComparison", "string"),
      ("runtime.calculateComparison", "string"), ("runtime.calculateComparison", "string"),
      ("runtime.cmplEvaluateNodeExpression", "string"), ("runtime.cmplEvaluateNodeExpression", "string"),
